@@ -92,6 +92,43 @@ Own mutants (`/verif/mutants/*.diff`; `revert-<commit>` is a `fix:` commit rever
 ---------------------------------------------------------------------------------------------
 
 '''
+# mechanical synchronisation mutants
+sync_idx = V + '/mutants/sync/index.json'
+sync_res = V + '/mutants/sync/results.json'
+if os.path.exists(sync_idx) and os.path.exists(sync_res):
+    idx = json.load(open(sync_idx))
+    resm = json.load(open(sync_res))
+    notes = {}
+    if os.path.exists(V + '/mutants/sync/notes.json'):
+        notes = json.load(open(V + '/mutants/sync/notes.json'))
+    killed = [m for m in idx if resm.get(m['name'], {}).get('exit') == 1]
+    surv = [m for m in idx if resm.get(m['name'], {}).get('exit') == 0]
+    other = [m for m in idx if resm.get(m['name'], {}).get('exit') not in (0, 1)]
+    ops = {}
+    for m in idx:
+        o = ops.setdefault(m['operator'], [0, 0])
+        o[1] += 1
+        if m in killed:
+            o[0] += 1
+    out += ("### 10b. Mechanical mutants of the synchronisation code\n\n"
+            "`bin/sync-mutants.py` applies eight operators to every site in `p2p/network.go`, `p2p/protocol.go`,\n"
+            "`gmw/triples.go`, `gmw/network.go` and `circuit/garble.go` (Broadcast -> Signal, wake-up removed,\n"
+            "`for` around `Wait` -> `if`, lock pair removed, unlock one statement early, lock one statement late,\n"
+            "adjacent hand-over statements swapped, channel buffer reduced); a mutant must still build.\n"
+            "`bin/sync-sweep` runs each against the quick check of its property. Of %d mutants (%d of them still\n"
+            "pass their package's own tests) **%d are killed, %d survive**%s. Per operator (killed/total): %s.\n\n"
+            "| mutant | file:line | operator | source line | package tests | quick check |\n|---|---|---|---|---|---|\n"
+            % (len(idx), sum(1 for m in idx if m['survives_package_tests']), len(killed), len(surv),
+               (', %d ended in harness trouble' % len(other)) if other else '',
+               ', '.join('%s %d/%d' % (k, v[0], v[1]) for k, v in sorted(ops.items()))))
+    for m in idx:
+        r = resm.get(m['name'], {})
+        verdict = {1: 'killed: ' + r.get('clause', ''), 0: '**survives**'}.get(r.get('exit'), 'exit %s' % r.get('exit'))
+        if m['name'] in notes:
+            verdict += ' - ' + notes[m['name']]
+        out += '| %s | %s:%d | %s (%s) | `%s` | %s | %s |\n' % (m['name'], m['file'], m['line'], m['operator'], m['what'], m['source_line'].replace('|', '/'), 'pass' if m['survives_package_tests'] else 'fail', verdict)
+    out += '\n---------------------------------------------------------------------------------------------\n\n'
+
 p = V + '/DESIGN.md'
 s = open(p).read()
 a = s.index('## 10. Sensitivity: which check catches which seeded change')
